@@ -15,7 +15,8 @@ META = {
              "N in {16,24,36} that are closed under negation (start 0 or half a bin), rotated by k bins (k in 0..N-1) "
              "and/or mirrored together with the wind direction; ST4 input + WAM tail stress, ST4 and ST6 dissipation, "
              "default and perturbed parameters. Non-trivial = k != 0 or mirror, the sea is not isotropic and the wind "
-             "is not aligned with a grid direction; distinct = sha1 of the case."),
+             "is not aligned with a grid direction; distinct = sha1 of the case."
+             " Sea kinds include two steep opposing wind seas 150-210 degrees apart; a fifth of the cases are square (nf == nd)."),
     "assumptions": [
         "in half of the cases the source-term / balance objects have been used before on a spectrum with another grid of the same shape (object reuse); every clause must hold regardless",
         "explicit roughness: spectral fields compared bin-for-bin after the roll/flip at 1e-10 relative to the field maximum; bulk rates 1e-10 relative",
